@@ -450,7 +450,7 @@ def classify(verdict):
         return "code"
     if "not the edited sequence" in verdict:
         return "calls"
-    if "doubly linked" in verdict:
+    if "doubly linked" in verdict or "CYCLE" in verdict:
         return "dll"
     if "node list/cursor differ" in verdict:
         return "list"
